@@ -7,6 +7,19 @@
      tag 2   (hint 2 kind bytes src)         BufferReader over bufiox.DefaultReader over the scripted
                                              source src = (final with chunks) delivering bytes;
                                              kind 12 = ReadMessageBegin
+     tag 3   (hint 3 t bytes)                thrift.Binary.Skip(bytes, TType(int8(t)))
+     tag 4   (hint 4 t bytes)                BytesSkipDecoder.Next
+     tag 5   (hint 5 t bytes src)            BufferReader.Skip over bufiox.DefaultReader over the scripted source
+     tag 6   (hint 6 t bytes src)            SkipDecoder.Next over bufiox.DefaultReader over the scripted source
+     tag 7   (hint 7 t bytes src)            ReaderSkipDecoder.Next over the scripted source
+             spec of tags 3..7: Spec/SkipCauses.v [skip_causes] (the causes applicable at the failure
+             point of the reference parse with budget 64; instance inl_all / inl_none / inl_br /
+             inl_none / inl_none).  The skipper's own failures must be *ProtocolException values
+             whose type id is the one an allowed cause demands; a failure caused by the source
+             (possible only where truncation is an allowed cause, or when the script stalls) must be
+             the source's error: wrapped in a ProtocolException with Unwrap by BufferReader (tag 5),
+             handed through by the decoders (tags 6, 7; BytesSkipDecoder's own end-of-input error
+             is io.EOF), in all cases matchable with errors.Is.
      kind    0 Bool 1 Byte 2 I16 3 I32 4 I64 5 Double 6 Binary 7 String 8 FieldBegin 9 MapBegin
              10 ListBegin 11 SetBegin
      hint    77 exactly when tag = 1 and the name length of the message is negative (the one input
@@ -16,8 +29,10 @@
              isproto   the error's dynamic type is *thrift.ProtocolException
              tid       TypeId()
              hascause  errors.Unwrap(err) != nil
-             iseof / isinj / isnoprog   errors.Is(err, io.EOF / the injected error / io.ErrNoProgress) *)
-From GV Require Import Lib.Bytes Lib.Res Corr.Val Gen.Consts Model.Binary Model.BufReader Model.ErrTypes Spec.ErrKinds.
+             iseof / isinj / isnoprog   errors.Is(err, io.EOF / the injected error / io.ErrNoProgress)
+           tags 3..7: hascause is reported as 0 for an error that is not a *ProtocolException *)
+From GV Require Import Lib.Bytes Lib.Res Corr.Val Gen.Consts Model.Binary Model.BufReader Model.ErrTypes Spec.ErrKinds
+  Model.Skip Model.StreamSkip Model.SkipDecoders Spec.RefParse Spec.SkipCauses.
 Open Scope Z_scope.
 
 (* type ids of the predeclared errors, evaluated from the regenerated Gen/Consts.v when this file
@@ -107,8 +122,98 @@ Definition stream_spec (rc : option cause) (final : Z) (stall : bool) (out : cva
   | Some cz => cval_eqb out (out_proto (cause_type cz)) || (stall && src_fail_ok final stall out)
   end.
 
+
+(* ---------- tags 3..7: the skippers ---------- *)
+(* a source error handed through unwrapped (SkipDecoder, ReaderSkipDecoder; io.EOF of BytesSkipDecoder) *)
+Definition out_raw (x : Z) : cval :=
+  L [I 1; I 0; I (-1); I 0; I (b2z (x =? e_eof)); I (b2z (x =? e_injected)); I (b2z (x =? e_noprogress))].
+
+(* the model's error code -> observables.  wrapped = BufferReader (100 + e = NewProtocolExceptionWithErr) *)
+Definition skip_out {A} (wrapped : bool) (r : res A) : option cval :=
+  match r with
+  | Ok _ => Some out_ok
+  | Err c =>
+    if (c =? e_depth) || (c =? e_too_short) || (c =? e_neg_size) || (c =? e_unknown_type) then Some (out_proto (etype c))
+    else if wrapped then (if (100 <=? c) && (c <? 199) then Some (out_wrap (c - 100)) else None)
+    else if (20 <=? c) && (c <? 99) then Some (out_raw c) else None
+  | _ => None
+  end.
+
+(* an own failure: a *ProtocolException without cause whose type id an allowed cause demands *)
+Definition own_fail_ok (cs : list cause) (out : cval) : bool :=
+  match out with
+  | L [I 1; I 1; I t; I 0; I 0; I 0; I 0] => tid_allowed cs t
+  | _ => false
+  end.
+(* the failure is the source's and matches it under errors.Is (any dynamic type) *)
+Definition src_match_ok (final : Z) (stall : bool) (out : cval) : bool :=
+  match out with
+  | L [I 1; I _; I _; I _; I iseof; I isinj; I isnp] =>
+    ((iseof =? 1) && (final =? e_eof)) || ((isinj =? 1) && (final =? e_injected)) || ((isnp =? 1) && stall)
+  | _ => false
+  end.
+Definition has_trunc (cs : list cause) : bool := existsb (cause_eqb CTrunc) cs.
+
+(* in memory (Binary.Skip): every failure is an own failure *)
+Definition skip_mem_spec (cs : list cause) (out : cval) : bool :=
+  match cs with
+  | [] => cval_eqb out out_ok
+  | _ => own_fail_ok cs out
+  end.
+(* over a source: srcfail says how a source failure must look.  strict: running out of input is
+   the source's failure and must be reported as such (matchable with errors.Is), so an own
+   protocol error may only name a cause other than truncation; not strict (BytesSkipDecoder, in
+   memory): a protocol exception INVALID_DATA for truncation would be as good as its io.EOF *)
+Definition not_trunc (c : cause) : bool := negb (cause_eqb CTrunc c).
+Definition skip_src_spec (strict : bool) (srcfail : cval -> bool) (stall : bool) (cs : list cause) (out : cval) : bool :=
+  match cs with
+  | [] => cval_eqb out out_ok || (stall && srcfail out)
+  | _ => own_fail_ok (if strict then filter not_trunc cs else cs) out || ((has_trunc cs || stall) && srcfail out)
+  end.
+
+Definition err_class {A} (r : res A) : Z :=
+  match r with
+  | Ok _ => 0
+  | Err c => if c =? e_depth then 1 else if c =? e_too_short then 2 else if c =? e_neg_size then 3
+             else if c =? e_unknown_type then 4 else 5
+  | _ => 6
+  end.
+Definition mask_of (i : inl) (t : N) (b : bytes) : Z :=
+  match rc i ref_depth t b with Err m => m | _ => 0 end.
+
+Definition check_skip {A} (wrapped : bool) (r : res A) (spec : cval -> bool) (out : cval) (tg : Z) : verdict :=
+  match skip_out wrapped r with
+  | Some m => mk (cval_eqb m out) (spec out) (tg + 16 * err_class r)
+  | None => mk false (spec out) (tg + 16 * err_class r)
+  end.
+
+Definition mk_src (data : bytes) (final wth : Z) (chunks : list cval) : source :=
+  {| sdata := data; sfinal := final; swith := negb (wth =? 0); schunks := map vN chunks; spos := 0%N |}.
+
 Definition check (c : cval) : verdict :=
   match c with
+  | L [L [I 0; I 3; I t; bs]; out] =>
+    let b := vbytes bs in let ty := Z.to_N t in
+    check_skip false (binary_skip b ty) (skip_mem_spec (skip_causes inl_all ty b)) out (1000 + mask_of inl_all ty b)
+  | L [L [I 0; I 4; I t; bs]; out] =>
+    let b := vbytes bs in let ty := Z.to_N t in
+    check_skip false (snd (bs_next (bs_new b) ty))
+      (skip_src_spec false (src_match_ok e_eof false) false (skip_causes inl_none ty b)) out (1100 + mask_of inl_none ty b)
+  | L [L [I 0; I 5; I t; bs; L [I final; I wth; L chunks]]; out] =>
+    let b := vbytes bs in let ty := Z.to_N t in
+    let stall := has_zero chunks in
+    check_skip true (snd (br_skip (new_reader (mk_src b final wth chunks)) ty))
+      (skip_src_spec true (src_fail_ok final stall) stall (skip_causes inl_br ty b)) out (1200 + mask_of inl_br ty b)
+  | L [L [I 0; I 6; I t; bs; L [I final; I wth; L chunks]]; out] =>
+    let b := vbytes bs in let ty := Z.to_N t in
+    let stall := has_zero chunks in
+    check_skip false (snd (pk_next (pk_new (new_reader (mk_src b final wth chunks))) ty))
+      (skip_src_spec true (src_match_ok final stall) stall (skip_causes inl_none ty b)) out (1300 + mask_of inl_none ty b)
+  | L [L [I 0; I 7; I t; bs; L [I final; I wth; L chunks]]; out] =>
+    let b := vbytes bs in let ty := Z.to_N t in
+    let stall := has_zero chunks in
+    check_skip false (snd (rf_next (rf_new (mk_src b final wth chunks) 0) ty))
+      (skip_src_spec true (src_match_ok final stall) stall (skip_causes inl_none ty b)) out (1400 + mask_of inl_none ty b)
   | L [L [I hint; I 0; I k; bs]; out] =>
     match kind_of_z k with
     | Some kd => let buf := vbytes bs in check_mem hint 0 (r_item kd buf) (ref_cause kd buf) out (100 + 8 * k)
